@@ -283,7 +283,7 @@ CHECKS = {
                    "granted - completed, listener!=nil iff ok, no delegate token completed twice; after teardown all zero, backlog empty, exactly the limit "
                    "re-admitted. (C) real-time stress (8-16 goroutines, random cancels, 1-3 ms time-outs) with the same end-state checks. (D) pools "
                    "behaviourally. Exploration.",
-        require=["sequential_layer_checks", "completions/success", "completions/ignore", "completions/dropped", "bubble_scenarios/blocking",
+        require=["gauge_at_rest_checks", "sequential_layer_checks", "completions/success", "completions/ignore", "completions/dropped", "bubble_scenarios/blocking",
                  "bubble_scenarios/deadline", "bubble_scenarios/queue", "quiescent_checks", "give_up_events_injected",
                  "releases_at_the_instant_of_a_bound", "bubble_scenarios_with_slow_delegate", "unknown_bin_conservation_probes", "partition_removed_with_tokens_outstanding", "stress_grants", "stress_refusals", "pool_cases"],
         rule="cases: sequential stack (40-120 ops), bubble scenario (8-32 ops on a PRNG limiter kind/capacity/time-out), pool churn, stress run; non-trivial = "
